@@ -130,6 +130,57 @@ func (p *pkg) constants() map[string]constant.Value {
 	return out
 }
 
+// typeInfo type-checks the package tolerantly (unresolved imports are faked)
+// and returns the resolution tables for package-local identifiers.
+func (p *pkg) typeInfo() *types.Info {
+	var files []*ast.File
+	names := make([]string, 0, len(p.files))
+	for n := range p.files {
+		names = append(names, n)
+	}
+	sort.Strings(names)
+	for _, n := range names {
+		files = append(files, p.files[n])
+	}
+	info := &types.Info{
+		Uses:       map[*ast.Ident]types.Object{},
+		Selections: map[*ast.SelectorExpr]*types.Selection{},
+	}
+	conf := types.Config{Importer: fakeImporter{}, Error: func(error) {}, DisableUnusedImportCheck: true, FakeImportC: true}
+	_, _ = conf.Check(p.dir, p.fset, files, info)
+	return info
+}
+
+// calleeKey resolves a call to "Type.method" / "func" for package-local callees.
+func calleeKey(info *types.Info, ce *ast.CallExpr) string {
+	var obj types.Object
+	switch f := ce.Fun.(type) {
+	case *ast.SelectorExpr:
+		if sel, ok := info.Selections[f]; ok {
+			obj = sel.Obj()
+		} else {
+			obj = info.Uses[f.Sel]
+		}
+	case *ast.Ident:
+		obj = info.Uses[f]
+	}
+	fn, ok := obj.(*types.Func)
+	if !ok {
+		return ""
+	}
+	sig := fn.Type().(*types.Signature)
+	if r := sig.Recv(); r != nil {
+		t := r.Type()
+		if pt, ok := t.(*types.Pointer); ok {
+			t = pt.Elem()
+		}
+		if nt, ok := t.(*types.Named); ok {
+			return nt.Obj().Name() + "." + fn.Name()
+		}
+	}
+	return fn.Name()
+}
+
 type fakeImporter struct{}
 
 func (fakeImporter) Import(path string) (*types.Package, error) {
@@ -461,6 +512,140 @@ func goStmts(p *pkg, fd *ast.FuncDecl) []string {
 	return res
 }
 
+// ---- lock nesting --------------------------------------------------------------
+
+type lockInfo struct {
+	acquires []string   // locks taken directly (normalised names)
+	edges    [][2]string // (held, acquired) pairs inside the function
+	calls    []struct {
+		held []string
+		name string
+	}
+}
+
+// lockGraph extracts, for every function of the package, the mutexes it locks
+// and what it locks or calls while holding them, and closes the relation over
+// same-package calls (resolved by function/method name).
+func lockGraph(p *pkg) [][2]string {
+	tinfo := p.typeInfo()
+	infos := map[string]*lockInfo{}
+	var names []string
+	for _, f := range p.files {
+		for _, d := range f.Decls {
+			fd, ok := d.(*ast.FuncDecl)
+			if !ok || fd.Body == nil {
+				continue
+			}
+			recvVar, recvType := "", ""
+			if fd.Recv != nil && len(fd.Recv.List) == 1 {
+				recvType = recvName(fd.Recv.List[0].Type)
+				if len(fd.Recv.List[0].Names) == 1 {
+					recvVar = fd.Recv.List[0].Names[0].Name
+				}
+			}
+			norm := func(e string) string {
+				if recvVar != "" && strings.HasPrefix(e, recvVar+".") {
+					return recvType + "." + strings.TrimPrefix(e, recvVar+".")
+				}
+				return e
+			}
+			li := &lockInfo{}
+			var held []string
+			var walk func(n ast.Node)
+			walk = func(n ast.Node) {
+				ast.Inspect(n, func(m ast.Node) bool {
+					switch x := m.(type) {
+					case *ast.FuncLit:
+						return false // separate goroutine / deferred closure: not this function's lock scope
+					case *ast.GoStmt:
+						return false // runs in another goroutine: not nested in this one's locks
+					case *ast.DeferStmt:
+						return false // defer X.Unlock(): the lock stays held to the end
+					case *ast.CallExpr:
+						fn := exprStr(p.fset, x.Fun)
+						switch {
+						case strings.HasSuffix(fn, ".Lock") || strings.HasSuffix(fn, ".RLock"):
+							l := norm(strings.TrimSuffix(strings.TrimSuffix(fn, ".Lock"), ".RLock"))
+							for _, h := range held {
+								li.edges = append(li.edges, [2]string{h, l})
+							}
+							li.acquires = append(li.acquires, l)
+							held = append(held, l)
+						case strings.HasSuffix(fn, ".Unlock") || strings.HasSuffix(fn, ".RUnlock"):
+							l := norm(strings.TrimSuffix(strings.TrimSuffix(fn, ".Unlock"), ".RUnlock"))
+							for i := len(held) - 1; i >= 0; i-- {
+								if held[i] == l {
+									held = append(held[:i], held[i+1:]...)
+									break
+								}
+							}
+						default:
+							if key := calleeKey(tinfo, x); key != "" {
+								li.calls = append(li.calls, struct {
+									held []string
+									name string
+								}{append([]string(nil), held...), key})
+							}
+						}
+					}
+					return true
+				})
+			}
+			walk(fd.Body)
+			key := fd.Name.Name
+			if recvType != "" {
+				key = recvType + "." + key
+			}
+			if old, ok := infos[key]; ok {
+				old.acquires = append(old.acquires, li.acquires...)
+				old.edges = append(old.edges, li.edges...)
+				old.calls = append(old.calls, li.calls...)
+			} else {
+				infos[key] = li
+				names = append(names, key)
+			}
+		}
+	}
+	sort.Strings(names)
+	// transitive set of locks acquired by a function
+	var acq func(name string, seen map[string]bool) []string
+	acq = func(name string, seen map[string]bool) []string {
+		li, ok := infos[name]
+		if !ok || seen[name] {
+			return nil
+		}
+		seen[name] = true
+		res := append([]string(nil), li.acquires...)
+		for _, c := range li.calls {
+			res = append(res, acq(c.name, seen)...)
+		}
+		return res
+	}
+	set := map[[2]string]bool{}
+	for _, n := range names {
+		li := infos[n]
+		for _, e := range li.edges {
+			set[e] = true
+		}
+		for _, c := range li.calls {
+			if len(c.held) == 0 {
+				continue
+			}
+			for _, l := range acq(c.name, map[string]bool{}) {
+				for _, h := range c.held {
+					set[[2]string{h, l}] = true
+				}
+			}
+		}
+	}
+	var edges [][2]string
+	for e := range set {
+		edges = append(edges, e)
+	}
+	sort.Slice(edges, func(i, j int) bool { return edges[i][0]+"|"+edges[i][1] < edges[j][0]+"|"+edges[j][1] })
+	return edges
+}
+
 func leanBoolList(l []bool) string {
 	q := make([]string, len(l))
 	for i, b := range l {
@@ -563,6 +748,26 @@ func main() {
 		leanStrList(calls(g, g.anyFunc("IntervalAwareForceTicker", "Stop"))))
 	o.f("def calls_tickerResetWithInterval : List String := %s\n",
 		leanStrList(calls(g, g.anyFunc("IntervalAwareForceTicker", "ResetWithInterval"))))
+	o.f("def calls_tickerResetBody : List String := %s\n",
+		leanStrList(calls(g, g.anyFunc("IntervalAwareForceTicker", "resetWithIntervalUnsafe"))))
+	o.f("def calls_tickerReset : List String := %s\n",
+		leanStrList(calls(g, g.anyFunc("IntervalAwareForceTicker", "Reset"))))
+	o.f("def lock_tickerReset : String := %s\n",
+		leanStr(lockedFirst(g, g.anyFunc("IntervalAwareForceTicker", "Reset"))))
+	{
+		edges := lockGraph(g)
+		parts := make([]string, len(edges))
+		for i, e := range edges {
+			parts[i] = fmt.Sprintf("(%s, %s)", leanStr(e[0]), leanStr(e[1]))
+		}
+		o.f("def lockEdges_gbn : List (String × String) := [%s]\n", strings.Join(parts, ", "))
+		medges := lockGraph(m)
+		mparts := make([]string, len(medges))
+		for i, e := range medges {
+			mparts[i] = fmt.Sprintf("(%s, %s)", leanStr(e[0]), leanStr(e[1]))
+		}
+		o.f("def lockEdges_mailbox : List (String × String) := [%s]\n", strings.Join(mparts, ", "))
+	}
 	o.f("def created_start : List String := %s\n", leanStrList(assignedFrom(g,
 		g.anyFunc("GoBackNConn", "start"), "NewIntervalAwareForceTicker", "time.NewTicker")))
 	var stopped []string
